@@ -143,6 +143,7 @@ func runOne(spec *PropSpec, dir string, cfg Config) (r *Run, stats map[string]an
 		return nil, nil, err
 	}
 	theClosures = buildClosureInfo(p)
+	theProg = p
 	r = newRun(spec.ID, p)
 	spec.Rules(r)
 	ruleStillWired(r)
@@ -253,6 +254,7 @@ func cmdSweep(args []string) int {
 		return 2
 	}
 	theClosures = buildClosureInfo(p)
+	theProg = p
 	for _, id := range sortedProps() {
 		spec := registry[id]
 		func() {
